@@ -26,7 +26,11 @@ var c16Modes = []string{"", "verify", "verify_log", "none"}
 // implementation's call, so 'verify' is not judged for them; verify_log and none accept every parseable CRL.
 // "resolvable-no-aki": signed by the issuing CA, no authority key identifier - the signer is found by name, and a
 // certificate of the re-keyed CA (same name, other key) is configured as trusted signer in front of everything else.
-var c16Signers = []string{"resolvable", "unknown", "wrong-signature", "unevaluable-aki-empty", "unevaluable-aki-issuer-only", "resolvable-no-aki"}
+// "resolvable-renewed-CA-certificate": the CA renewed its certificate with the same key. The clients' verified chains
+// come in both variants - through the old certificate (keyCertSign only) and through the renewed one (which may sign
+// CRLs) -, both match the CRL's key identifier, only the second one is entitled. The CRL is accepted and, as every
+// accepted CRL, keeps being refreshed.
+var c16Signers = []string{"resolvable", "unknown", "wrong-signature", "unevaluable-aki-empty", "unevaluable-aki-issuer-only", "resolvable-no-aki", "resolvable-renewed-CA-certificate"}
 var c16Paths = []string{"provision-crl_file", "provision-crl_url", "first-cdp-fetch-actively", "first-cdp-fetch-background", "periodic-refresh", "refresh-after-restart",
 	// a first run under signature_validation_mode none takes the configured CRL in; the process restarts on the same
 	// work_dir with the mode of the cell (the policy of the current configuration decides, not what the disk remembers)
@@ -63,12 +67,19 @@ type c16Cast struct {
 	ca, unknownCA     *world.Ident
 	p1, p2, clean     *world.Ident // p1 listed from version 1 on, p2 only from version 2 on
 	pc1, pc2, pcclean *world.Ident // same serials without CDP (config CRL paths)
+	// the issuing CA's previous certificate: same name, same key, key usage keyCertSign only
+	oldCA             *world.Ident
+	oldCACertInChains bool
 }
 
 func newC16Cast() *c16Cast {
 	p := world.Std()
 	c := &c16Cast{p: p, ca: p.CA}
 	c.unknownCA = world.Issue(nil, world.CertOpt{CN: "unknown crl signer", IsCA: true, KeyKind: "ec", KeyIdx: 4, Serial: big.NewInt(81)})
+	c.oldCA = world.Issue(p.Root, world.CertOpt{Subject: &p.CA.Cert.Subject, IsCA: true, KeyKind: "ec", KeyIdx: 1, Serial: big.NewInt(82), KeyUsage: x509.KeyUsageCertSign})
+	if string(c.oldCA.Cert.SubjectKeyId) != string(p.CA.Cert.SubjectKeyId) || string(c.oldCA.Cert.RawSubject) != string(p.CA.Cert.RawSubject) {
+		panic("c16 cast: the old CA certificate is expected to share name and key identifier with the renewed one")
+	}
 	c.p1 = world.Leaf(p.CA, bi(301), []string{c16URL}, nil)
 	c.p2 = world.Leaf(p.CA, bi(302), []string{c16URL}, nil)
 	c.clean = world.Leaf(p.CA, bi(303), []string{c16URL}, nil)
@@ -85,7 +96,7 @@ func (c *c16Cast) doc(signer string, v int) []byte {
 		serials = append(serials, 302)
 	}
 	switch signer {
-	case "resolvable":
+	case "resolvable", "resolvable-renewed-CA-certificate":
 		return world.SimpleCRL(c.ca, int64(v), serials...).DER()
 	case "wrong-signature":
 		s := world.SimpleCRL(c.ca, int64(v), serials...)
@@ -121,7 +132,13 @@ func (c *c16Cast) observe(w *TW, cdp bool) string {
 	if cdp {
 		l1, l2, cl = c.p1, c.p2, c.clean
 	}
-	ch := func(l *world.Ident) [][]*x509.Certificate { return world.Chain(l, c.ca, c.p.Root) }
+	ch := func(l *world.Ident) [][]*x509.Certificate {
+		if c.oldCACertInChains {
+			// two verified chains: through the CA's old certificate and through its renewed one
+			return [][]*x509.Certificate{world.Chain(l, c.oldCA, c.p.Root)[0], world.Chain(l, c.ca, c.p.Root)[0]}
+		}
+		return world.Chain(l, c.ca, c.p.Root)
+	}
 	v1, v2, vc := w.Handshake(ch(l1)), w.Handshake(ch(l2)), w.Handshake(ch(cl))
 	vsched.Drain()
 	if v1.Panic != "" || v2.Panic != "" || vc.Panic != "" {
@@ -148,10 +165,12 @@ func (c *c16Cast) observe(w *TW, cdp bool) string {
 func (c *c16Cast) runCell(cell c16Cell) (obs c16Obs, want []string) {
 	accept := func(signer string) bool { // does the mode accept a CRL of this signer variant?
 		if cell.Mode == "" || cell.Mode == "verify" {
-			return signer == "resolvable" || signer == "resolvable-no-aki"
+			return signer == "resolvable" || signer == "resolvable-no-aki" || signer == "resolvable-renewed-CA-certificate"
 		}
 		return true
 	}
+	c.oldCACertInChains = cell.Signer == "resolvable-renewed-CA-certificate"
+	defer func() { c.oldCACertInChains = false }()
 	seqWorld(func() {
 		net := world.NewNet()
 		dir := FreshDir("c16")
@@ -201,6 +220,10 @@ func (c *c16Cast) runCell(cell c16Cell) (obs c16Obs, want []string) {
 			if cell.ExtraTrusted {
 				// a trusted signer which has nothing to do with this CRL changes nothing about the policy
 				cfg.TrustedSignatureCertsFiles = append([]string{WritePEM(filesDir, "unrelated.pem", c.p.CARSA.Cert)}, cfg.TrustedSignatureCertsFiles...)
+			}
+			if cell.Signer == "resolvable-renewed-CA-certificate" && len(cfg.TrustedSignatureCertsFiles) > 0 {
+				// where signers are configured both certificates of the CA are, the old one first
+				cfg.TrustedSignatureCertsFiles = append([]string{WritePEM(filesDir, "old-ca.pem", c.oldCA.Cert)}, cfg.TrustedSignatureCertsFiles...)
 			}
 			if cell.Signer == "resolvable-no-aki" {
 				// the re-keyed CA's certificate (same name, other key) comes first among the trusted signers
